@@ -448,4 +448,5 @@ SPEC = PropSpec(
     assumptions=["CPython int <<, |, int.to_bytes semantics", "CCSDS 133.0-B-2 primary header layout 3,1,1,11,2,14,16",
                  "_extract_bits(d,s,n) returns bits [s,s+n) (decided by C03)"],
     mutants=mutants,
+    technique="constant folding and table comparison against the CCSDS 133.0-B layout; boundary witness search by abstract interpretation",
 )
